@@ -1,6 +1,6 @@
 (* C14 — non-vacuity examples and refutations of the pre-repair behaviours *)
 From Coq Require Import ZArith List Bool Lia.
-From Verif Require Import C14.Model C14.Proofs.
+From Verif Require Import C14.Model C14.Proofs C14.ProofsReg.
 Import ListNotations.
 Open Scope Z_scope.
 
@@ -294,4 +294,55 @@ Example ex_uncallable_validator :
   let '(s', res) := exec_op current no_timeouts st0 1 3 [3; 2; 3] (sc_shaped false 0 sh_noargs sh_noargs) in
   r_success res = false /\ work_runs res = 1%nat /\ validate_runs res = 0%nat /\ In EvWorkRet (r_log res) /\
   owner s' 2 = None /\ owner s' 3 = None /\ active s' = [5].
+Proof. vm_compute. intuition. Qed.
+
+(* ------------------------------------------------------------------ *)
+(* register_resource on a live system; `resources` as other iterables   *)
+
+(* op5 holds r1 and, twice, r2 (st0).  r2 is registered again (now not preemptable): the registered
+   r2 is free, the replaced lock lives on under the retired key 1000 and op5's context refers to it;
+   the state is well-formed; op5 is killed: it owns nothing, neither registered nor replaced locks *)
+Definition st_rereg : st := fst (fstep current no_timeouts st0 (FRegister 2 false)).
+Example ex_reregister_while_held :
+  WF st_rereg /\ owner st_rereg 2 = None /\ owner st_rereg 1000 = Some 5 /\
+  lock_core st_rereg 1000 = Some (Some 5, 0, 2) /\
+  option_map c_acq (get_ctx st_rereg 5) = Some [1; 1000] /\ probe st_rereg = [(5, 1); (-1, 0); (-1, 0)] /\
+  let s' := fst (fstep current no_timeouts st_rereg (FKill 5)) in
+  owner s' 1 = None /\ owner s' 2 = None /\ owner s' 1000 = None /\ active s' = [].
+Proof. split; [apply reregister_wf, ex_st0_wf|]. vm_compute. intuition. Qed.
+
+(* the running operation re-registers, from inside its work function, a resource it holds re-entrantly
+   (request [3; 2; 3]), then fails validation: nothing registered is left to it, the replaced lock is
+   free as well, and a later operation gets r3 at once *)
+Definition sc_rereg : script := mkPlain [] [] [WProbe; WDo (FRegister 3 false); WProbe] false VFalse 0.
+Example ex_reregister_inside_work :
+  let '(s', res) := exec_op current no_timeouts st0 1 3 [3; 2; 3] sc_rereg in
+  r_success res = false /\ work_runs res = 1%nat /\
+  owner s' 3 = None /\ owner s' 2 = None /\ owner s' 1000 = None /\ active s' = [5] /\
+  In (EvProbe [(5, 1); (1, 1); (1, 2)]) (r_log res) /\ In (EvProbe [(5, 1); (1, 1); (-1, 0)]) (r_log res) /\
+  r_success (snd (exec_op current no_timeouts s' 2 0 [3] sc_plain)) = true.
+Proof. vm_compute. intuition. Qed.
+
+(* a new id registered on the live system, then used *)
+Example ex_register_new_id :
+  let s1 := fst (fstep current no_timeouts st0 (FRegister 4 true)) in
+  probe s1 = [(5, 1); (5, 2); (-1, 0); (-1, 0)] /\
+  r_success (snd (exec_op current no_timeouts s1 1 3 [4; 3] sc_plain)) = true.
+Proof. vm_compute. intuition. Qed.
+
+(* the request as a generator: requested = what it yields once; a second pass would be empty; dict keys
+   collapse repeats; an empty tuple is falsy, an exhausted-looking generator is not - both request nothing *)
+Example ex_request_iterables :
+  request_of KGen [3; 2; 3] = [3; 2; 3] /\ second_pass KGen [3; 2; 3] = [] /\
+  second_pass KTuple [3; 2; 3] = [3; 2; 3] /\
+  request_of KKeys [3; 2; 3] = [3; 2] /\ request_of KTuple [] = [] /\ request_of KGen [] = [] /\
+  let '(s', res) := exec_op current no_timeouts st0 1 3 (request_of KGen [3; 2; 3]) sc_plain in
+  r_success res = true /\ In (EvProbe [(5, 1); (1, 1); (1, 2)]) (r_log res) /\ owner s' 3 = None.
+Proof. vm_compute. intuition. Qed.
+
+(* a request that must block (r1 is held by op5 and cannot be preempted), given as a one-shot iterator:
+   the work function does not run *)
+Example ex_request_iterable_blocked :
+  let '(s', res) := exec_op current no_timeouts st0 1 3 (request_of KOnce [3; 1]) sc_plain in
+  r_success res = false /\ work_runs res = 0%nat /\ owner s' 3 = None /\ owner s' 1 = Some 5.
 Proof. vm_compute. intuition. Qed.
